@@ -830,6 +830,12 @@ typedef struct {
   int next_idx; // index in include_paths of the directory after the one that has the file
 } IncludeCacheEntry;
 
+// The #include_next position of a file found by the search_include_paths
+// call that has just succeeded: behind the directory it was found in.
+int include_next_position(void) {
+  return include_next_idx;
+}
+
 char *search_include_paths(char *filename) {
   if (filename[0] == '/')
     return filename;
